@@ -276,4 +276,19 @@ CANARIES: Dict[str, Dict[str, Any]] = {
         job="c12:Conv1d[constraint=default,depth=None]", expect=["out_scale*lr_factor*fan"],
         via="c10:_get_fan_in[rank=3]", via_expect=["_get_fan_in:body==contract"],
     ),
+    "cross-entropy-grad-scale-sqrt-V": dict(
+        props=["C04"], file=F, module=FM,
+        old="input = scale_bwd(input, vocab_size / (vocab_size - 1) ** 0.5)", new="input = scale_bwd(input, vocab_size**0.5)",
+        job="op:cross_entropy[rank=2,reduction=sum]", expect=["C04:functional.cross_entropy"],
+    ),
+    "log-interpolation-sign": dict(
+        props=["C04"], file="unit_scaling/core/functional.py", module="unit_scaling.core.functional",
+        old="alpha * math.log(upper) + (1 - alpha) * math.log(lower)", new="alpha * math.log(upper) - (1 - alpha) * math.log(lower)",
+        job="core:logarithmic_interpolation", expect=["between_limits", "body==contract"],
+    ),
+    "softmax-scale-outside-limits": dict(
+        props=["C04"], file=F, module=FM,
+        old="        upper=dim_size**0.5,  # one-hot limit", new="        upper=dim_size**0.25,  # one-hot limit",
+        job="op:softmax[constraint=None,dtype=None]", expect=["C04:functional.softmax:output_scale_between"],
+    ),
 }
